@@ -221,7 +221,7 @@ func registerFSStubs(ex *Exec) {
 				args := []Value{fv, dv}
 				f, ok := fv.(*Opaque)
 				if !ok {
-					ex.outcome("panic", "Write on a nil *os.File", site, st.pc)
+					ex.panicOutcome(st, "Write on a nil *os.File", site, st.pc)
 					st.kill()
 					return nil
 				}
